@@ -44,7 +44,9 @@ type Generate struct {
 
 // Parse the input file and drives the attributes above.
 func (g *Generate) Parse() error {
-	_, pkg, fAST, importInfo, err := gencommon.LoadPackages(g.InFile)
+	// the output file is about to be rewritten: what it declares now must not influence what is
+	// generated (e.g. which unmarshalers a trait type is found to implement).
+	_, pkg, fAST, importInfo, err := gencommon.LoadPackagesIgnoring(g.InFile, g.OutFile)
 	if err != nil {
 		return err
 	}
